@@ -359,6 +359,14 @@ func GenOpsT(t *rapid.T, cfg pat.Cfg, pool []string, n int, o GenOpts) ([]Op, []
 					ms = append(ms, rapid.SampledFrom(hostileMethods).Draw(t, "rmHostile"))
 				}
 			}
+			if len(have) > 0 && rapid.IntRange(0, 3).Draw(t, "drain") == 0 {
+				// every registered method by name: the pattern dies, but not through Remove(pattern)
+				ms = ms[:0]
+				for m := range have {
+					ms = append(ms, m)
+				}
+				sort.Strings(ms)
+			}
 			op := Op{Kind: "removeMethods", Pattern: p, Methods: ms}
 			via(&op, p)
 			g.tb.Remove(p, ms...)
